@@ -164,3 +164,36 @@ func zstdDeclared(raw []byte) uint64 {
 func zstdWindowFrame(log uint) []byte {
 	return []byte{0x28, 0xb5, 0x2f, 0xfd, 0x00, byte((log - 10) << 3), 0x09, 0x00, 0x00, 'x'}
 }
+
+// stripChunkLines removes what looks like chunk-size lines (CRLF hex [;ext] CRLF) so that a
+// compressed body sent with chunked transfer coding can be scanned as one piece.
+func stripChunkLines(raw []byte) []byte {
+	out := make([]byte, 0, len(raw))
+	for i := 0; i < len(raw); {
+		if raw[i] == '\r' && i+1 < len(raw) && raw[i+1] == '\n' {
+			j := i + 2
+			for j < len(raw) && j < i+2+16 && isHexDigit(raw[j]) {
+				j++
+			}
+			if j > i+2 {
+				k := j
+				if k < len(raw) && raw[k] == ';' {
+					for k < len(raw) && k < j+64 && raw[k] != '\r' {
+						k++
+					}
+				}
+				if k+1 < len(raw) && raw[k] == '\r' && raw[k+1] == '\n' {
+					i = k + 2
+					continue
+				}
+			}
+		}
+		out = append(out, raw[i])
+		i++
+	}
+	return out
+}
+
+func isHexDigit(c byte) bool {
+	return c >= '0' && c <= '9' || c >= 'a' && c <= 'f' || c >= 'A' && c <= 'F'
+}
